@@ -5,6 +5,7 @@ from __future__ import annotations
 
 import logging
 import os
+import re
 import shutil
 import textwrap
 import zlib
@@ -219,9 +220,14 @@ class SphinxInventoryWriter:
         """
         Return header for project  with name.
         """
+        # The header is line based: a line break inside the project name or
+        # version would end the comment line early and make the file
+        # unreadable. Collapse whitespace like Sphinx does for its inventories.
+        name = re.sub(r'\s+', ' ', self._project_name)
+        version = re.sub(r'\s+', ' ', self._project_version)
         return f"""# Sphinx inventory version 2
-# Project: {self._project_name}
-# Version: {self._project_version}
+# Project: {name}
+# Version: {version}
 # The rest of this file is compressed with zlib.
 """.encode('utf-8')
 
